@@ -13,6 +13,8 @@ import (
 
 	"verif/harness/hx"
 
+	"github.com/KiraCore/sekai/x/gov"
+	govkeeper "github.com/KiraCore/sekai/x/gov/keeper"
 	govtypes "github.com/KiraCore/sekai/x/gov/types"
 	l2keeper "github.com/KiraCore/sekai/x/layer2/keeper"
 	l2types "github.com/KiraCore/sekai/x/layer2/types"
@@ -32,6 +34,18 @@ type params struct {
 	Premint  int64  `json:"premint"`
 	Postmint int64  `json:"postmint"`
 	Fee      string `json:"fee"`
+	Drip     int64  `json:"drip"`
+	BV       bool   `json:"bond_verifiers"`
+}
+
+// network properties of a history
+type cfg struct {
+	Min, Max, Dur, LiqPeriod, LiqThr, FtFee uint64
+	VBond                                 string
+}
+
+func (c cfg) coq() string {
+	return fmt.Sprintf("(mkConfig %d %d %d %d %d %d %s)", c.Min, c.Max, c.Dur, c.LiqPeriod, c.LiqThr, c.FtFee, hx.ZBig(decStr(c.VBond).BigInt()))
 }
 
 type jop struct {
@@ -45,6 +59,13 @@ type jop struct {
 	Fee     string  `json:"fee,omitempty"`
 	Kind    int     `json:"kind,omitempty"`
 	P       *params `json:"params,omitempty"`
+	Status  int     `json:"status,omitempty"`
+	Total   int64   `json:"total,omitempty"`
+	Ctime   int64   `json:"ctime,omitempty"`
+	Ptime   int64   `json:"ptime,omitempty"`
+	Liq     int64   `json:"liq,omitempty"`
+	Cfg     *cfg    `json:"cfg,omitempty"`
+	Reg     bool    `json:"registered,omitempty"`
 }
 
 type jdapp struct {
@@ -80,6 +101,7 @@ type jcase struct {
 	Min   uint64  `json:"min_raw"`
 	Max   uint64  `json:"max_raw"`
 	Dur   uint64  `json:"duration"`
+	Cfg   cfg     `json:"cfg"`
 	Steps []jstep `json:"steps"`
 }
 
@@ -94,7 +116,10 @@ type env struct {
 	ustr   []string
 	mod    sdk.AccAddress
 	spend  sdk.AccAddress
-	setCfg func(c sdk.Context, min, max, dur uint64)
+	setCfg func(c sdk.Context, cf cfg)
+	gms    govtypes.MsgServer
+	gk     govkeeper.Keeper
+	tokReg func(c sdk.Context, den string) bool
 }
 
 // one history on a private cache of the base state
@@ -108,6 +133,9 @@ type hist struct {
 	steps []jstep
 	dist  hx.Counter
 	denN  int
+	ns    int64 // nanosecond part of the current block time
+	cf    cfg
+	ftN   int
 }
 
 func (h *hist) uidx(s string) int {
@@ -187,6 +215,8 @@ func (h *hist) newParams(r *hx.Rng, lpBig bool) params {
 	h.denN++
 	p := params{Denom: fmt.Sprintf("dn%d", h.denN), LpOK: true, Ratio: []string{"0.5", "1", "0.001", "0.333333333333333333", "0", "2.5"}[r.Intn(6)],
 		Premint: []int64{0, 7, 1000}[r.Intn(3)], Postmint: []int64{11, 1, 500000}[r.Intn(3)], Fee: []string{"0.01", "0", "0.003", "0.5", "1"}[r.Intn(5)]}
+	p.Drip = []int64{100, 1, 0, 86400}[r.Intn(4)]
+	p.BV = r.Chance(40)
 	if lpBig {
 		p.Postmint = []int64{100000000, 5000000, 40}[r.Intn(3)]
 		p.Ratio = []string{"0.5", "1", "0.001", "0.00001", "3"}[r.Intn(5)]
@@ -204,9 +234,7 @@ func (h *hist) create(u int, name string, amt int64, foreign bool, p params) boo
 	if foreign {
 		den = "foreign"
 	}
-	d := l2types.Dapp{Name: name, Denom: p.Denom, Pool: l2types.LpPoolConfig{Ratio: decStr(p.Ratio), Drip: 100},
-		Issuance:   l2types.IssuanceConfig{Premint: sdk.NewInt(p.Premint), Postmint: sdk.NewInt(p.Postmint)},
-		VoteQuorum: sdk.NewDecWithPrec(3, 1), PoolFee: decStr(p.Fee), TeamReserve: e.ustr[4], TotalBond: coin("ukex", 0)}
+	d := h.dappOf(name, p)
 	ok, errs := h.tx(func(c sdk.Context) error {
 		_, err := e.ms.CreateDappProposal(sdk.WrapSDKContext(c), &l2types.MsgCreateDappProposal{Sender: e.ustr[u], Dapp: d, Bond: coin(den, amt)})
 		return err
@@ -222,8 +250,134 @@ func (h *hist) create(u int, name string, amt int64, foreign bool, p params) boo
 	}
 	pp := p
 	h.observe(jop{Op: "create", U: u, Name: name, Amt: amt, Foreign: foreign, P: &pp},
-		fmt.Sprintf("OCreate U%d %s %s %s %s (mkParams %s %s %s %s %s %s U4)", u, hx.B(u == 3), hx.B(foreign), hx.Str(name), hx.Z(amt),
-			hx.Str("lp/"+p.Denom), hx.B(p.LpOK), hx.ZBig(decStr(p.Ratio).BigInt()), hx.Z(p.Premint), hx.Z(p.Postmint), hx.ZBig(decStr(p.Fee).BigInt())), ok, errs)
+		fmt.Sprintf("OCreate U%d %s %s %s %s %s", u, hx.B(u == 3), hx.B(foreign), hx.Str(name), hx.Z(amt), paramsCoq(p)), ok, errs)
+	return ok
+}
+
+func paramsCoq(p params) string {
+	return fmt.Sprintf("(mkParams %s %s %s %s %s %s U4 %s %s)", hx.Str("lp/"+p.Denom), hx.B(p.LpOK), hx.ZBig(decStr(p.Ratio).BigInt()),
+		hx.Z(p.Premint), hx.Z(p.Postmint), hx.ZBig(decStr(p.Fee).BigInt()), hx.Z(p.Drip), hx.B(p.BV))
+}
+
+// the record a creation / upsert message carries: controllers are users 0..2
+func (h *hist) dappOf(name string, p params) l2types.Dapp {
+	e := h.e
+	return l2types.Dapp{Name: name, Denom: p.Denom, Pool: l2types.LpPoolConfig{Ratio: decStr(p.Ratio), Drip: uint64(p.Drip)},
+		Issuance:   l2types.IssuanceConfig{Premint: sdk.NewInt(p.Premint), Postmint: sdk.NewInt(p.Postmint)},
+		VoteQuorum: sdk.NewDecWithPrec(3, 1), VotePeriod: 10, VoteEnactment: 10, PoolFee: decStr(p.Fee), TeamReserve: e.ustr[4],
+		TotalBond: coin("ukex", 0), EnableBondVerifiers: p.BV,
+		Controllers: l2types.Controllers{Whitelist: l2types.AccountRange{Addresses: []string{e.ustr[0], e.ustr[1], e.ustr[2]}}}}
+}
+
+func (h *hist) blockTime() time.Time { return time.Unix(h.t0+h.now, h.ns).UTC() }
+
+// network properties change between blocks
+func (h *hist) setcfg(r *hx.Rng, cf cfg) {
+	h.e.setCfg(h.c, cf)
+	h.cf = cf
+	c := cf
+	h.observe(jop{Op: "setcfg", Cfg: &c}, "OSetCfg "+cf.coq(), true, "")
+}
+
+// MsgMintBurnTx
+func (h *hist) burntx(u int, den string, amt int64) bool {
+	e := h.e
+	reg := e.tokReg(h.c, den)
+	ok, errs := h.tx(func(c sdk.Context) error {
+		_, err := e.ms.MintBurnTx(sdk.WrapSDKContext(c), &l2types.MsgMintBurnTx{Sender: e.ustr[u], Denom: den, Amount: sdk.NewInt(amt)})
+		return err
+	})
+	h.observe(jop{Op: "burntx", U: u, Den: den, Amt: amt, Reg: reg}, fmt.Sprintf("OBurnTx U%d %s %s %s", u, hx.Str(den), hx.Z(amt), hx.B(reg)), ok, errs)
+	return ok
+}
+
+// MsgMintCreateFtTx
+func (h *hist) mintft(u int, fresh bool) bool {
+	e := h.e
+	if fresh {
+		h.ftN++
+	}
+	suffix := fmt.Sprintf("ft%d", h.ftN)
+	ok, errs := h.tx(func(c sdk.Context) error {
+		_, err := e.ms.MintCreateFtTx(sdk.WrapSDKContext(c), &l2types.MsgMintCreateFtTx{Sender: e.ustr[u], DenomSuffix: suffix, Name: suffix, Symbol: suffix,
+			Decimals: 6, Cap: sdk.NewInt(1000000), Supply: sdk.ZeroInt(), FeeRate: sdk.NewDecWithPrec(1, 2), Owner: e.ustr[u]})
+		return err
+	})
+	isFresh := fresh || h.ftN == 0
+	if h.ftN == 0 {
+		h.ftN = 1
+	}
+	h.observe(jop{Op: "mintft", U: u, Reg: isFresh}, fmt.Sprintf("OMintFt U%d %s", u, hx.B(isFresh)), ok, errs)
+	return ok
+}
+
+// MsgJoinDappVerifierWithBond: the LP bond is taken from the Interx account
+func (h *hist) joinverifier(u, interx int, name string) bool {
+	e := h.e
+	ok, errs := h.tx(func(c sdk.Context) error {
+		_, err := e.ms.JoinDappVerifierWithBond(sdk.WrapSDKContext(c), &l2types.MsgJoinDappVerifierWithBond{Sender: e.ustr[u], Interx: e.ustr[interx], DappName: name})
+		return err
+	})
+	h.observe(jop{Op: "joinverifier", U: u, Name: name, Name2: fmt.Sprint(interx)}, fmt.Sprintf("OJoinVerifier U%d U%d %s", u, interx, hx.Str(name)), ok, errs)
+	return ok
+}
+
+// ProposalUpsertDapp through the real gov msg server, the real gov EndBlocker and the real proposal router:
+// submitted by controller 1, all three controllers vote yes, voting period and enactment period pass.
+// The gov blocks run on later block times than the history's clock, which is restored afterwards.
+func (h *hist) upsert(name string, total int64, status int, ctime int64, p params, ptime, liq int64) bool {
+	e := h.e
+	d := h.dappOf(name, p)
+	d.TotalBond = coin("ukex", total)
+	d.Status = l2types.DappStatus(status)
+	d.CreationTime = uint64(ctime)
+	d.PremintTime = uint64(ptime)
+	d.LiquidationStart = uint64(liq)
+	ok, errs := h.tx(func(c sdk.Context) error {
+		m, err := govtypes.NewMsgSubmitProposal(e.users[1], "upsert", "upsert", &l2types.ProposalUpsertDapp{Sender: e.ustr[1], Dapp: d})
+		if err != nil {
+			return err
+		}
+		resp, err := e.gms.SubmitProposal(sdk.WrapSDKContext(c), m)
+		if err != nil {
+			return err
+		}
+		for i := 0; i < 3; i++ {
+			if _, err := e.gms.VoteProposal(sdk.WrapSDKContext(c), govtypes.NewMsgVoteProposal(resp.ProposalID, e.users[i], govtypes.OptionYes, sdk.ZeroDec())); err != nil {
+				return err
+			}
+		}
+		c2 := c.WithBlockHeight(c.BlockHeight() + 4).WithBlockTime(c.BlockTime().Add(11 * time.Second))
+		gov.EndBlocker(c2, e.gk)
+		c3 := c.WithBlockHeight(c.BlockHeight() + 8).WithBlockTime(c.BlockTime().Add(22 * time.Second))
+		gov.EndBlocker(c3, e.gk)
+		pr, found := e.gk.GetProposal(c3, resp.ProposalID)
+		if !found || pr.Result != govtypes.Passed || pr.ExecResult != "executed successfully" {
+			return fmt.Errorf("proposal result %s / %s", pr.Result, pr.ExecResult)
+		}
+		return nil
+	})
+	pp := p
+	h.observe(jop{Op: "upsert", Name: name, Total: total, Status: status, Ctime: ctime, Ptime: ptime, Liq: liq, P: &pp},
+		fmt.Sprintf("OUpsert %s %s %d %s %s %s %s", hx.Str(name), hx.Z(total), status, hx.Z(ctime), paramsCoq(p), hx.Z(ptime), hx.Z(liq)), ok, errs)
+	return ok
+}
+
+// keeper level: the record is stored with another status / PremintTime / LiquidationStart (absolute unix times)
+func (h *hist) kforce(name string, status int, ptime, liq int64) bool {
+	e := h.e
+	ok, errs := h.tx(func(c sdk.Context) error {
+		d := e.k.GetDapp(c, name)
+		if d.Name == "" {
+			return fmt.Errorf("no dapp")
+		}
+		d.Status = l2types.DappStatus(status)
+		d.PremintTime = uint64(ptime)
+		d.LiquidationStart = uint64(liq)
+		e.k.SetDapp(c, d)
+		return nil
+	})
+	h.observe(jop{Op: "kforce", Name: name, Status: status, Ptime: ptime, Liq: liq}, fmt.Sprintf("KForce %s %d %s %s", hx.Str(name), status, hx.Z(ptime), hx.Z(liq)), ok, errs)
 	return ok
 }
 
@@ -258,10 +412,13 @@ func (h *hist) reclaim(u int, name string, amt int64, foreign bool) bool {
 func (h *hist) tick(dt int64) bool {
 	old := h.c
 	h.now += dt
-	h.c = h.c.WithBlockTime(time.Unix(h.t0+h.now, 0).UTC()).WithBlockHeight(h.c.BlockHeight() + 1)
+	oldNs := h.ns
+	h.ns = []int64{0, 1, 999999999, 500000000, 123456789}[int(uint64(h.now*7+dt)%5)]
+	h.c = h.c.WithBlockTime(h.blockTime()).WithBlockHeight(h.c.BlockHeight() + 1)
 	ok, errs := h.tx(func(c sdk.Context) error { h.e.k.EndBlocker(c); return nil })
 	if !ok {
 		h.now -= dt
+		h.ns = oldNs
 		h.c = old
 	}
 	h.observe(jop{Op: "tick", Amt: dt}, fmt.Sprintf("OTick %s", hx.Z(dt)), ok, errs)
@@ -400,6 +557,18 @@ func (h *hist) bootstrap(r *hx.Rng, names []string, minThr, maxThr int64, nops i
 			}
 		case x < 14:
 			h.tick(r.Range(0, 40))
+			if r.Chance(25) { // network properties change between blocks, up and down across the current totals
+				cf := h.cf
+				cf.Max = []uint64{h.cf.Max, 1, 2, h.cf.Max + 3, 40}[r.Intn(5)]
+				cf.Min = []uint64{h.cf.Min, 1, 3}[r.Intn(3)]
+				if cf.Min > cf.Max {
+					cf.Min = cf.Max
+				}
+				cf.Dur = []uint64{h.cf.Dur, h.cf.Dur / 2, h.cf.Dur * 2}[r.Intn(3)]
+				h.setcfg(r, cf)
+			} else if r.Chance(20) {
+				h.burntx(r.Intn(4), "ukex", r.Range(1, 5000))
+			}
 		case x < 15: // adversarial amounts
 			amt := []int64{0, -1, -1000000, maxThr + 1, 1 << 40}[r.Intn(5)]
 			if r.Bool() {
@@ -454,13 +623,13 @@ func (h *hist) bootstrap(r *hx.Rng, names []string, minThr, maxThr int64, nops i
 	}
 }
 
-func (h *hist) finishCase(kind string, min, max, dur uint64) (string, jcase) {
+func (h *hist) finishCase(kind string, cf cfg) (string, jcase) {
 	var bals []string
 	for range h.e.users {
 		bals = append(bals, hx.Z(startBal))
 	}
-	s := fmt.Sprintf("CHist (mkConfig %d %d %d) %s [%s]", min, max, dur, hx.List(bals), strings.Join(h.coq, "; "))
-	return s, jcase{Kind: kind, Min: min, Max: max, Dur: dur, Steps: h.steps}
+	s := fmt.Sprintf("CHist %s %s [%s]", cf.coq(), hx.List(bals), strings.Join(h.coq, "; "))
+	return s, jcase{Kind: kind, Min: cf.Min, Max: cf.Max, Dur: cf.Dur, Cfg: cf, Steps: h.steps}
 }
 
 func main() {
@@ -495,27 +664,41 @@ func main() {
 		}
 		actor, _ = app.CustomGovKeeper.GetNetworkActorByAddress(base, e.users[3])
 	}
-	e.setCfg = func(c sdk.Context, min, max, dur uint64) {
+	// users 0..2 are the controllers of every dApp: they vote, so they must be network actors
+	for i := 0; i < 3; i++ {
+		if err := app.CustomGovKeeper.AddWhitelistPermission(base, govtypes.NewDefaultActor(e.users[i]), govtypes.PermClaimCouncilor); err != nil {
+			panic(err)
+		}
+	}
+	e.gms = govkeeper.NewMsgServerImpl(app.CustomGovKeeper)
+	e.gk = app.CustomGovKeeper
+	e.tokReg = func(c sdk.Context, den string) bool { return app.TokensKeeper.GetTokenInfo(c, den) != nil }
+	e.setCfg = func(c sdk.Context, cf cfg) {
 		p := app.CustomGovKeeper.GetNetworkProperties(c)
-		p.MinDappBond, p.MaxDappBond, p.DappBondDuration = min, max, dur
+		p.MinDappBond, p.MaxDappBond, p.DappBondDuration = cf.Min, cf.Max, cf.Dur
+		p.DappLiquidationPeriod, p.DappLiquidationThreshold, p.MintingFtFee, p.DappVerifierBond = cf.LiqPeriod, cf.LiqThr, cf.FtFee, decStr(cf.VBond)
 		if err := app.CustomGovKeeper.SetNetworkProperties(c, p); err != nil {
 			panic(err)
 		}
 	}
 	dist := hx.Counter{}
-	newHist := func(min, max, dur uint64) *hist {
-		c, _ := base.CacheContext()
-		e.setCfg(c, min, max, dur)
-		return &hist{e: e, c: c, t0: 1700000000, dist: dist}
+	mkCfg := func(min, max, dur uint64) cfg {
+		return cfg{Min: min, Max: max, Dur: dur, LiqPeriod: 2419200, LiqThr: 100000000000, FtFee: 100000000000000, VBond: "0.001"}
 	}
+	newHistCfg := func(cf cfg) *hist {
+		c, _ := base.CacheContext()
+		e.setCfg(c, cf)
+		return &hist{e: e, c: c, t0: 1700000000, dist: dist, cf: cf}
+	}
+	newHist := func(min, max, dur uint64) *hist { return newHistCfg(mkCfg(min, max, dur)) }
 
 	// ---- probes: which of the known defects does this tree have?
-	vPrefix, vZero, vCreate, vStale, vNeg := probes(e, newHist)
+	vPrefix, vZero, vCreate, vStale, vNeg, vUpsert := probes(e, newHist)
 
 	var coq []string
 	var js []jcase
-	add := func(h *hist, kind string, min, max, dur uint64) {
-		s, j := h.finishCase(kind, min, max, dur)
+	add := func(h *hist, kind string, cf cfg) {
+		s, j := h.finishCase(kind, cf)
 		coq = append(coq, s)
 		js = append(js, j)
 		dist.Inc("history:" + kind)
@@ -525,10 +708,23 @@ func main() {
 		cf := cfgs[r.Intn(len(cfgs))]
 		min, max, dur := cf[0], cf[1], cf[2]
 		minThr, maxThr := int64(min)*1000000, int64(max)*1000000
-		h := newHist(min, max, dur)
+		cf0 := mkCfg(min, max, dur)
+		cf0.LiqPeriod = []uint64{2419200, 100, 5}[r.Intn(3)]
+		cf0.LiqThr = []uint64{100000000000, 2, 1}[r.Intn(3)]
+		cf0.FtFee = []uint64{100000000000000, 1000, 0}[r.Intn(3)]
+		cf0.VBond = []string{"0.001", "0.5", "0"}[r.Intn(3)]
+		h := newHistCfg(cf0)
 		names := append([]string{}, cleanNames[r.Intn(len(cleanNames))][:1+r.Intn(3)]...)
 		kind := "clean"
-		switch x := i % 12; {
+		switch x := i % 16; {
+		case x == 12:
+			kind = "time"
+		case x == 13:
+			kind = "upsert"
+		case x == 14:
+			kind = "status"
+		case x == 15:
+			kind = "other"
 		case x == 3:
 			kind = "zero"
 		case x == 5:
@@ -553,7 +749,12 @@ func main() {
 			kind = "keeper"
 		}
 		feature := kind
-		lp := kind == "lpmsg" || kind == "keeper"
+		lp := kind == "lpmsg" || kind == "keeper" || kind == "status" || kind == "other" || kind == "upsert"
+		if kind == "time" {
+			h.timeBoundaries(r, names, cf0)
+			add(h, kind, cf0)
+			continue
+		}
 		h.bootstrap(r, names, minThr, maxThr, 3+r.Intn(9), feature, lp)
 		if lp { // make most dApps reach the minimum
 			for _, nme := range names {
@@ -592,8 +793,14 @@ func main() {
 			h.lpMessages(r, names)
 		case "keeper":
 			h.keeperOps(r, names)
+		case "upsert":
+			h.upserts(r, names, vUpsert)
+		case "status":
+			h.statuses(r, names)
+		case "other":
+			h.others(r, names)
 		}
-		add(h, kind, min, max, dur)
+		add(h, kind, cf0)
 	}
 
 	var f strings.Builder
@@ -603,17 +810,17 @@ func main() {
 		f.WriteString(fmt.Sprintf("Definition U%d : string := %s.\n", i, hx.Str(u)))
 	}
 	f.WriteString("Definition users : list string := [U0; U1; U2; U3; U4].\n")
-	f.WriteString(fmt.Sprintf("Definition tree : variant := mkVariant %s %s %s %s %s.\n", hx.B(vPrefix), hx.B(vZero), hx.B(vCreate), hx.B(vStale), hx.B(vNeg)))
+	f.WriteString(fmt.Sprintf("Definition tree : variant := mkVariant %s %s %s %s %s %s.\nDefinition T0 : Z := 1700000000.\n", hx.B(vPrefix), hx.B(vZero), hx.B(vCreate), hx.B(vStale), hx.B(vNeg), hx.B(vUpsert)))
 	out.WriteFile("pre.v", f.String())
 	out.WriteFile("cases.txt", strings.Join(coq, "\n")+"\n")
-	out.WriteJSON("meta.json", map[string]string{"case_type": "c20_case", "mismatch_fn": "c20_mismatches tree users", "violation_fn": "c20_violations users"})
+	out.WriteJSON("meta.json", map[string]string{"case_type": "c20_case", "mismatch_fn": "c20_mismatches tree users T0", "violation_fn": "c20_violations users"})
 	out.WriteJSON("cases.json", js)
 	steps := 0
 	for _, j := range js {
 		steps += len(j.Steps)
 	}
 	out.WriteJSON("dist.json", map[string]interface{}{"seed": seed, "histories": len(js), "steps": steps, "by_kind": dist,
-		"variant": map[string]bool{"prefix_iteration": vPrefix, "zero_record_blocks_refund": vZero, "creation_bond_unchecked": vCreate, "convert_swaps_into_stale_record": vStale, "negative_creation_bond_accepted": vNeg}, "users": e.ustr})
+		"variant": map[string]bool{"prefix_iteration": vPrefix, "zero_record_blocks_refund": vZero, "creation_bond_unchecked": vCreate, "convert_swaps_into_stale_record": vStale, "negative_creation_bond_accepted": vNeg, "upsert_proposal_rewrites_bookkeeping": vUpsert}, "users": e.ustr})
 	fmt.Fprintf(os.Stderr, "c20: %d histories, %d steps\n", len(js), steps)
 }
 
@@ -723,7 +930,7 @@ func (h *hist) keeperOps(r *hx.Rng, names []string) {
 }
 
 // probes: three tiny experiments on the real keeper / msg server
-func probes(e *env, newHist func(min, max, dur uint64) *hist) (prefix, zero, create, stale, neg bool) {
+func probes(e *env, newHist func(min, max, dur uint64) *hist) (prefix, zero, create, stale, neg, ups bool) {
 	{
 		h := newHist(1, 10, 1000)
 		e.k.SetUserDappBond(h.c, l2types.UserDappBond{User: e.ustr[0], DappName: "probeab", Bond: coin("ukex", 5)})
@@ -746,6 +953,14 @@ func probes(e *env, newHist func(min, max, dur uint64) *hist) (prefix, zero, cre
 		neg = h.create(3, "proben", -5, false, params{Denom: "proben", Ratio: "1", Fee: "0"})
 	}
 	{
+		h := newHist(1, 10, 1000)
+		p := params{Denom: "probeu", LpOK: true, Ratio: "1", Fee: "0", Drip: 100}
+		h.create(0, "probeu", 20000, false, p)
+		if h.upsert("probeu", 999, 0, h.t0, p, 0, 0) {
+			ups = e.k.GetDapp(h.c, "probeu").TotalBond.Amount.Int64() == 999
+		}
+	}
+	{
 		h := newHist(1, 10, 100)
 		h.create(0, "probec", 1000000, false, params{Denom: "probec", LpOK: true, Ratio: "1", Postmint: 5000000, Fee: "0"})
 		h.tick(101)
@@ -755,4 +970,182 @@ func probes(e *env, newHist func(min, max, dur uint64) *hist) (prefix, zero, cre
 		}
 	}
 	return
+}
+
+
+// TIME: every comparison with a stored time is probed one second before, exactly at and one second after the
+// boundary, with nanosecond parts in the block times, several messages inside one block time
+func (h *hist) timeBoundaries(r *hx.Rng, names []string, cf cfg) {
+	minThr, maxThr := int64(cf.Min)*1000000, int64(cf.Max)*1000000
+	dur := int64(cf.Dur)
+	n1 := names[0]
+	h.tick(r.Range(0, 20))
+	h.create(r.Intn(3), n1, minThr/100+r.Range(0, 1000), false, h.newParams(r, false))
+	ct1 := h.now
+	var n2 string
+	ct2 := int64(-1)
+	if len(names) > 1 { // a second dApp created a little later, reaching the minimum
+		h.tick(r.Range(1, 3))
+		n2 = names[1]
+		h.create(r.Intn(3), n2, minThr/100+5, false, h.newParams(r, false))
+		ct2 = h.now
+		need := minThr - (minThr/100 + 5) - int64(r.Intn(2)) // exactly the minimum, or one below
+		if need+minThr/100+5 <= maxThr {
+			h.bond(r.Intn(3), n2, need, false)
+		}
+	}
+	h.bond(r.Intn(4), n1, r.Range(1, 5000), false)
+	// one second before the first deadline, exactly, one after -- messages in between
+	if ct1+dur-1 > h.now {
+		h.tick(ct1 + dur - 1 - h.now)
+	}
+	h.bond(r.Intn(4), n1, r.Range(1, 5000), false)
+	h.tick(1)
+	h.bond(r.Intn(4), n1, r.Range(1, 5000), false)
+	u := r.Intn(4)
+	h.reclaim(u, n1, h.userBond(n1, u)/2+1, false)
+	h.tick(1)
+	if ct2 >= 0 {
+		for h.now < ct2+dur+1 {
+			h.tick(1)
+			h.bond(r.Intn(4), n2, r.Range(1, 500), false)
+		}
+	}
+	// the bond period changed by proposal while a dApp is bootstrapping: shorter -> due at once, longer -> later
+	n3 := names[0] + "t"
+	h.create(r.Intn(3), n3, minThr/100+r.Range(0, 1000), false, h.newParams(r, false))
+	ct3 := h.now
+	cf2 := cf
+	if r.Bool() {
+		cf2.Dur = cf.Dur / 2
+	} else {
+		cf2.Dur = cf.Dur*2 + 1
+	}
+	h.tick(int64(cf.Dur)/2 - 1)
+	h.setcfg(r, cf2)
+	for i := 0; i < 3; i++ {
+		h.tick(1)
+	}
+	if ct3+int64(cf2.Dur)-1 > h.now {
+		h.tick(ct3 + int64(cf2.Dur) - 1 - h.now)
+		h.tick(1)
+		h.tick(1)
+	}
+}
+
+// passed upsert proposals (real gov flow); rawTree: the tree stores the proposal's record wholesale
+func (h *hist) upserts(r *hx.Rng, names []string, rawTree bool) {
+	for i := 0; i < 2+r.Intn(3); i++ {
+		n := names[r.Intn(len(names))]
+		if r.Chance(10) {
+			n = "nosuch"
+		}
+		d := h.e.k.GetDapp(h.c, n)
+		p := h.newParams(r, true)
+		total, status, ctime, ptime, liq := int64(0), 0, h.t0+h.now, int64(0), int64(0)
+		if d.Name != "" {
+			total, status, ctime, ptime, liq = d.TotalBond.Amount.Int64(), int(d.Status), int64(d.CreationTime), int64(d.PremintTime), int64(d.LiquidationStart)
+			if r.Chance(60) { // keep the LP denomination
+				p.Denom = strings.TrimPrefix(d.LpToken(), "lp/")
+				p.LpOK = sdk.ValidateDenom("lp/"+p.Denom) == nil
+			}
+			if d.EnableBondVerifiers && r.Chance(80) {
+				p.BV = true
+			}
+		}
+		switch r.Intn(4) {
+		case 0: // description only
+		case 1, 2: // the bookkeeping fields too
+			total = []int64{0, total + 1, total * 2, total / 2, 1 << 40}[r.Intn(5)]
+			status = []int{0, 1, 2, 3}[r.Intn(4)]
+			ctime = h.t0 + h.now - r.Range(0, 2000)
+			ptime = h.t0 + h.now - r.Range(0, 200)
+		default: // status alone
+			if status != 0 {
+				status = []int{1, 2, 3}[r.Intn(3)]
+			}
+		}
+		h.upsert(n, total, status, ctime, p, ptime, liq)
+		if r.Bool() {
+			h.bond(r.Intn(3), n, r.Range(1, 5000), false)
+		}
+		if r.Bool() {
+			h.tick(r.Range(0, 5))
+		}
+	}
+	h.keeperOps(r, names)
+}
+
+// every status, with bonds / LP operations / blocks at each; PremintTime+Drip and LiquidationStart+period
+// one second before, exactly at and one second after the block time
+func (h *hist) statuses(r *hx.Rng, names []string) {
+	for i := 0; i < 3+r.Intn(4); i++ {
+		n := names[r.Intn(len(names))]
+		d := h.e.k.GetDapp(h.c, n)
+		if d.Name == "" {
+			continue
+		}
+		st := []int{1, 1, 1, 2, 3}[r.Intn(5)]
+		nowAbs := h.t0 + h.now
+		dt := r.Range(1, 4) // the next block is dt seconds later
+		ptime := nowAbs + dt - int64(d.Pool.Drip) + []int64{-1, 0, 1, -1000, 1000}[r.Intn(5)]
+		liq := []int64{0, nowAbs + dt - int64(h.cf.LiqPeriod) + []int64{-1, 0, 1}[r.Intn(3)], nowAbs}[r.Intn(3)]
+		if ptime < 0 {
+			ptime = 0
+		}
+		if liq < 0 {
+			liq = 0
+		}
+		h.kforce(n, st, ptime, liq)
+		u := r.Intn(3)
+		h.bond(u, n, r.Range(1, 5000), false)
+		h.kswap(u, n, false, r.Range(1000, 300000), []string{"0", "0.01"}[r.Intn(2)])
+		if b := h.lpBal(u, h.lpDenom(n)); b > 1 {
+			h.kredeem(u, n, h.lpDenom(n), r.Range(1, b), "0")
+		}
+		h.lpmsg(r.Intn(3), u, n, n, h.lpDenom(n), 5, "1")
+		h.tick(dt)
+		if r.Bool() {
+			h.tick(1)
+		}
+		h.reclaim(u, n, h.userBond(n, u)/2+1, false)
+		if b := h.lpBal(u, h.lpDenom(n)); b > 1 && r.Bool() {
+			h.kredeem(u, n, h.lpDenom(n), r.Range(1, b), "0.003")
+		}
+	}
+}
+
+// the other layer2 messages that move coins through the module account
+func (h *hist) others(r *hx.Rng, names []string) {
+	for u := 0; u < 3; u++ {
+		h.kswap(u, names[r.Intn(len(names))], false, []int64{250000, 1000, 40000}[r.Intn(3)], "0")
+	}
+	for i := 0; i < 8+r.Intn(8); i++ {
+		n := names[r.Intn(len(names))]
+		u := r.Intn(4)
+		den := h.lpDenom(n)
+		switch r.Intn(8) {
+		case 0, 1:
+			h.burntx(u, "ukex", []int64{1, 5000, 0, -3, 1 << 40}[r.Intn(5)])
+		case 2:
+			amt := h.lpBal(u, den)
+			if amt > 1 {
+				amt = r.Range(1, amt)
+			} else {
+				amt = 3
+			}
+			if sdk.ValidateDenom(den) == nil {
+				h.burntx(u, den, amt)
+			}
+		case 3:
+			h.burntx(u, []string{"foreign", "nosuchdenom"}[r.Intn(2)], r.Range(1, 100))
+		case 4:
+			h.mintft(u, r.Chance(70))
+		case 5, 6:
+			h.joinverifier(u, r.Intn(4), []string{n, n, "nosuch"}[r.Intn(3)])
+		default:
+			h.kredeem(u, n, den, 1, "0")
+			h.bond(u, n, r.Range(1, 500), false)
+		}
+	}
 }
